@@ -86,6 +86,8 @@ fn main() {
                 "C17" => c17::run(&ctx),
                 "C16" => c16::run(&ctx),
                 "C14" => c14::run(&ctx),
+                "C36" => c36::run(&ctx),
+                "C04" => c04::run(&ctx),
                 "C15" => c15::run(&ctx),
                 other => {
                     eprintln!("no check for {other}");
